@@ -84,8 +84,19 @@ def gen_fa(rng, cls=None, max_states=5, max_syms=3, pool=None, eps=True):
     used = sorted({t[1] for t in delta if t[1] is not None})
     extra_syms = [a for a in range(k) if a not in used and rng.random() < 0.5]
     iso = [q for q in states if rng.random() < 0.15]
+    # "churn": transitions / final marks that are added through the API and removed again before any query:
+    # the automaton is the same, its construction history is not
+    churn = []
+    if states and rng.random() < 0.25:
+        for _ in range(rng.randint(1, 3)):
+            q, a, r = rng.choice(states), rng.randrange(k), rng.choice(states)
+            if [q, a, r] not in delta and not (cls == "D" and any(t[0] == q and t[1] == a for t in delta)):
+                churn.append(["t", q, a, r])
+        for q in states:
+            if q not in finals and rng.random() < 0.2:
+                churn.append(["f", q])
     return {"cls": cls, "svals": svals, "symvals": symvals, "starts": starts, "finals": finals,
-            "delta": delta, "extra_syms": extra_syms, "iso": iso}
+            "delta": delta, "extra_syms": extra_syms, "iso": iso, "churn": churn}
 
 
 def enumerate_fa(max_states, nsyms, cls="E", eps=True):
@@ -121,6 +132,16 @@ def build(spec):
         fa.add_transition(sv[q], Epsilon() if a is None else yv[a], sv[r])
     for a in spec.get("extra_syms", []):
         fa.add_symbol(yv[a])
+    for item in spec.get("churn", []):
+        if item[0] == "t":
+            fa.add_transition(sv[item[1]], yv[item[2]], sv[item[3]])
+        else:
+            fa.add_final_state(sv[item[1]])
+    for item in spec.get("churn", []):
+        if item[0] == "t":
+            fa.remove_transition(sv[item[1]], yv[item[2]], sv[item[3]])
+        else:
+            fa.remove_final_state(sv[item[1]])
     return fa
 
 
@@ -234,3 +255,16 @@ def structurally_deterministic(a):
         if seen.setdefault((_k(q), s), _k(r)) != _k(r):
             return False
     return len(set(map(_k, a["starts"]))) <= 1
+
+
+def build_from_extract(ex, symvals):
+    """a fresh DeterministicFiniteAutomaton / EpsilonNFA with int states from an extracted structure"""
+    from pyformlang.finite_automaton import EpsilonNFA
+    fa = EpsilonNFA()
+    for q in ex["starts"]:
+        fa.add_start_state(q)
+    for q in ex["finals"]:
+        fa.add_final_state(q)
+    for q, a, r in ex["delta"]:
+        fa.add_transition(q, Epsilon() if a is None else symvals[a], r)
+    return fa
